@@ -6,7 +6,9 @@ d=/verif/seeded/$name
 [ -f $d/patch.diff ] || { echo "no patch in $d"; exit 2; }
 if ! git -C /repo diff --quiet; then echo "/repo has uncommitted changes"; exit 2; fi
 git -C /repo apply $d/patch.diff || { echo "patch does not apply"; exit 2; }
-trap 'git -C /repo checkout -- . ; git -C /repo status --short' EXIT
+# evidence/ and replays/ written while a patch is applied describe the patched tree, not /repo: keep the clean ones
+bak=$(mktemp -d /verif/.build/evbak.XXXXXX); cp -a /verif/evidence $bak/evidence; cp -a /verif/replays $bak/replays 2>/dev/null
+trap 'git -C /repo checkout -- . ; git -C /repo status --short; rm -rf /verif/evidence /verif/replays; mv $bak/evidence /verif/evidence; [ -d $bak/replays ] && mv $bak/replays /verif/replays; rm -rf $bak' EXIT
 for p in "$@"; do
   out=$(cd /verif && ./check $p --tier quick 2>&1)
   rc=$?
